@@ -536,8 +536,8 @@ def c07_alphabet(g, slots):
 def plans_C07(g, tier):
     if tier == 'quick':
         return [dict(name='forbid3', mask=M_C07, du=2, dm=5, alphabet=c07_alphabet(g, (0, 1, 2)))]
-    return [dict(name='forbid3', mask=M_C07, du=3, dm=7, alphabet=c07_alphabet(g, (0, 1, 2))),
-            dict(name='forbid4', mask=M_C07, du=2, dm=6, alphabet=c07_alphabet(g, (0, 1, 2, 3)))]
+    return [dict(name='forbid3', mask=M_C07, du=3, dm=6, alphabet=c07_alphabet(g, (0, 1, 2))),
+            dict(name='forbid4', mask=M_C07, du=2, dm=5, alphabet=c07_alphabet(g, (0, 1, 2, 3)))]
 
 
 # ---------------------------------------------------------------- C08
